@@ -32,7 +32,7 @@ func init() { props["C20"] = runC20 }
 
 type exec20 struct {
 	who     string
-	outcome string // ans none err
+	outcome string // ans none err errans (error returned although a response was attached: counts as failed)
 	gate    chan struct{}
 	calls   int32
 	done    chan struct{} // closed when Exec returned (first call)
@@ -60,6 +60,13 @@ func (e *exec20) Exec(ctx context.Context, qCtx *query_context.Context) error {
 		return errors.New(e.who + " failed")
 	case "none":
 		return nil
+	case "errans":
+		// e.g. a sequence whose forward step answered and whose later step then failed
+		r := new(dns.Msg)
+		r.SetReply(qCtx.Q())
+		r.Answer = append(r.Answer, &dns.A{Hdr: dns.RR_Header{Name: qCtx.Q().Question[0].Name, Rrtype: dns.TypeA, Class: 1, Ttl: 60}, A: net.IPv4(9, 9, 9, 9)})
+		qCtx.SetResponse(r)
+		return errors.New(e.who + " failed after a response had been attached")
 	}
 	r := new(dns.Msg)
 	r.SetReply(qCtx.Q())
@@ -88,7 +95,7 @@ type res20 struct {
 }
 
 func runC20(r *Run) {
-	outcomes := []string{"ans", "none", "err"}
+	outcomes := []string{"ans", "none", "err", "errans"}
 	type scen struct {
 		kind    string // A B C D
 		standby bool
@@ -279,6 +286,8 @@ func runC20(r *Run) {
 				res.result = "noanswer"
 			} else if rr.Answer[0].(*dns.A).A.Equal(net.IPv4(1, 1, 1, 1)) {
 				res.result = "primary"
+			} else if rr.Answer[0].(*dns.A).A.Equal(net.IPv4(9, 9, 9, 9)) {
+				res.result = "response-of-a-failed-executable"
 			} else {
 				res.result = "secondary"
 			}
